@@ -1,5 +1,6 @@
 """C04 -- Terrapin exposure is flagged exactly per the published rule."""
 import ast
+import re
 import itertools
 
 from sa.core import AnalysisError, unparse, walk_no_nested, stmt_text, call_name, bind_args
@@ -112,17 +113,13 @@ def run(repo, rep, tier):
             rep.check('marker', 'marker literal %s is a database kex name' % lit, lit in db2['kex'], sets[0], 'marker literal %r unknown to the database' % lit)
 
     # ---- rule 2: decision table by abstract interpretation ----------------------------------------------------------
-    # The body of post_process_findings is interpreted (sa/listinterp.py) on every row of
+    # The body of post_process_findings is interpreted (sa/listinterp.py, props/_terrapin.py) on every row of
     #   kex present x client audit x client marker x server marker x ChaCha offered x CBC offered x ETM offered,
-    # with the enabled-helpers summarised as "the peer's names of that shape" (two symbolic names per class; rule 3
-    # establishes that summary) and calls of the adder recorded as effects.  The warned (category, name) pairs and the
-    # names in the advisory note must equal the published rule on every path of every row.
-    from sa.listinterp import Interp
+    # with the nested helpers interpreted in place on concrete representative names of each shape (the other role's lists always
+    # hold names of every shape) and calls of the adder recorded as effects.  The warned (category, name) pairs, the names in the
+    # advisory note and the Terrapin-shaped part of the suppression list must equal the published rule on every path of every row.
     from sa.abseval import Opaque
-    ENABLED = {'_get_chacha_ciphers_enabled': 'chacha', '_get_cbc_ciphers_enabled': 'cbc', '_get_etm_macs_enabled': 'etm'}
-    NOT_ENABLED = {'_get_chacha_ciphers_not_enabled': 'chacha', '_get_cbc_ciphers_not_enabled': 'cbc', '_get_etm_macs_not_enabled': 'etm'}
-    CAT = {'chacha': 'enc', 'cbc': 'enc', 'etm': 'mac'}
-    C_LIT, S_LIT = 'kex-strict-c-v00@openssh.com', 'kex-strict-s-v00@openssh.com'
+    from props import _terrapin as T
     rows = 0
     bad = []
     nsites = set()
@@ -131,25 +128,8 @@ def run(repo, rep, tier):
         if not val['kexp'] and (val['c'] or val['s'] or val['chacha'] or val['cbc'] or val['etm']):
             continue        # nothing is offered when there is no KEXINIT
         rows += 1
-        toks = {k: (['<%s-1>' % k, '<%s-2>' % k] if val[k] else []) for k in ('chacha', 'cbc', 'etm')}
-
-        def hook(call, env, interp, toks=toks):
-            nm = call_name(call)
-            if nm in ENABLED:
-                return (True, list(toks[ENABLED[nm]]))
-            if nm in NOT_ENABLED:
-                return (True, ['<not-enabled-%s>' % NOT_ENABLED[nm]])
-            return None
-        kexlist = ['curve25519-sha256', 'diffie-hellman-group-exchange-sha256'] + ([C_LIT] if val['c'] else []) + ([S_LIT] if val['s'] else [])
-        env = {
-            'algs.ssh2kex': Opaque() if val['kexp'] else None, 'algs.ssh2kex.kex_algorithms': kexlist,
-            'algs.ssh2kex is not None': val['kexp'], 'algs.ssh2kex is None': not val['kexp'], 'client_audit': val['client'],
-            "'%s' in algs.ssh2kex.kex_algorithms" % C_LIT: val['c'], "'%s' in algs.ssh2kex.kex_algorithms" % S_LIT: val['s'],
-            "'%s' not in algs.ssh2kex.kex_algorithms" % C_LIT: not val['c'], "'%s' not in algs.ssh2kex.kex_algorithms" % S_LIT: not val['s'],
-            'dh_rate_test_notes': '',
-        }
-        it = Interp(call_hook=hook, effect_names=('_add_terrapin_warning',))
-        finals = it.run(ppf.body, env)
+        toks = {k: (list(T.NAMES[k]) if val[k] else []) for k in ('chacha', 'cbc', 'etm')}
+        finals, it, table = T.interpret(repo, ppf, val)
         marker = val['kexp'] and ((val['client'] and val['c']) or (not val['client'] and val['s']))
         want_warn, want_note = set(), set()
         if val['chacha']:
@@ -158,6 +138,9 @@ def run(repo, rep, tier):
             (want_note if marker else want_warn).update(('enc', t) for t in toks['cbc'])
             (want_note if marker else want_warn).update(('mac', t) for t in toks['etm'])
         want_note = {t for c, t in want_note}
+        want_sup = T.expected_suppressed(val)
+        all_names = {n for names in T.DB_NAMES.values() for n in names}
+        shaped = {n for n in all_names if any(f(n) for f in T.SHAPE.values())}
         projections = {}
         for fe in finals:
             rep.evals()
@@ -173,16 +156,17 @@ def run(repo, rep, tier):
                     raise AnalysisError('Terrapin adder called with uncomputable arguments at %s' % stmt_text(it.nodes[k]))
                 got_warn.add((args[1], args[2]))
             text = ' '.join(str(x) for x in notes)
-            got_note = {t for k2 in toks for t in toks[k2] if t in text}
-            alltoks = {t for k2 in toks for t in toks[k2]} | {'<%s-%d>' % (k2, i) for k2 in toks for i in (1, 2)}
-            foreign = sorted((c, n) for c, n in got_warn if n not in alltoks)
+            got_note = {n for n in all_names if re.search(r'(?<![\w@.-])' + re.escape(n) + r'(?![\w@-])', text)}
+            got_sup = {n for n in sup if n in shaped}
+            role_names = {t for k2 in toks for t in toks[k2]}
+            foreign = sorted((c, n) for c, n in got_warn if n not in role_names)
             if foreign:
-                bad.append(('warning', val, 'warning attached to %s, which is not an offered ChaCha20-Poly1305 / CBC / ETM name' % (foreign,)))
+                bad.append(('warning', val, 'warning attached to %s, which is not a ChaCha20-Poly1305 / CBC / ETM name the audited role offers' % (foreign,)))
                 continue
-            projections.setdefault((frozenset(got_warn), frozenset(got_note), len(text) > 0, tuple(sorted(x for x in sup if x.startswith('<')))), fe.get('<forks>', []))
+            projections.setdefault((frozenset(got_warn), frozenset(got_note), len(text) > 0, frozenset(got_sup)), fe.get('<forks>', []))
             if len(projections) > 1:
-                a, b = list(projections.values())[:2]
-                raise AnalysisError('Terrapin outcome depends on a condition the analysis does not model: %s' % (sorted(set(a) ^ set(b)) or a))
+                a0, b0 = list(projections.values())[:2]
+                raise AnalysisError('Terrapin outcome depends on a condition the analysis does not model: %s' % (sorted(set(a0) ^ set(b0)) or a0))
             if got_warn != want_warn:
                 extra, missing = sorted(got_warn - want_warn), sorted(want_warn - got_warn)
                 bad.append(('warning', val, 'wrongly warned: %s' % extra if extra else 'not warned: %s' % missing))
@@ -191,15 +175,13 @@ def run(repo, rep, tier):
                 bad.append(('advisory note', val, 'wrongly named: %s' % extra if extra else 'not named: %s' % missing))
             if (len(text) > 0) != bool(want_note):
                 bad.append(('advisory note', val, 'note %s although %s algorithms are to be named' % ('present' if text else 'absent', len(want_note))))
-            for k2 in NOT_ENABLED.values():
-                if '<not-enabled-%s>' % k2 not in sup:
-                    bad.append(('suppression', val, 'not-enabled %s names missing from the suppression list' % k2))
-            if any(t in sup for k2 in toks for t in toks[k2]):
-                bad.append(('suppression', val, 'an offered name is suppressed from recommendations'))
+            if got_sup != want_sup:
+                extra, missing = sorted(got_sup - want_sup), sorted(want_sup - got_sup)
+                bad.append(('suppression', val, ('names the peer offers are suppressed from recommendations: %s' % extra) if extra else ('not-enabled names missing from the suppression list: %s' % missing)))
     rep.floor('table', 'decision-table rows interpreted', rows, 66)
     rep.floor('table', 'distinct adder call sites reached', len(nsites), 1)
     first = bad[0] if bad else None
-    rep.check('table', 'warnings, advisory note and suppression list equal the published Terrapin rule on all %d rows (abstract interpretation of post_process_findings)' % rows, not bad, ppf,
+    rep.check('table', 'warnings, advisory note and suppression list equal the published Terrapin rule on all %d rows (abstract interpretation of post_process_findings and its helpers)' % rows, not bad, ppf,
               'Terrapin rule broken (%s): with %s -- %s [%d row/path deviations]' % ((first[0], {k: v for k, v in first[1].items()}, first[2], len(bad)) if first else ('', {}, '', 0)),
               stmt='terrapin decision table: %s' % (first[0] if first else ''), sample={'rule': 'table', 'rows': rows, 'adder_sites_reached': len(nsites)})
     # who may call the adder: nobody else, and no other writer of the Terrapin text
@@ -219,32 +201,18 @@ def run(repo, rep, tier):
              ('cbc', '_get_cbc_ciphers_enabled', '_get_cbc_ciphers_not_enabled', 'enc', 'encryption', 'cbc'),
              ('etm', '_get_etm_macs_enabled', '_get_etm_macs_not_enabled', 'mac', 'mac', '-etm')]
     for tag, en, ne, cat, acc, substr in PAIRS:
-        v1, l1, t1 = shape_predicate(helpers[en])
-        v2, l2, t2 = shape_predicate(helpers[ne])
+        # The helpers' behaviour (which list they read, what they exclude, what they return) is decided by the decision table above, where they are
+        # interpreted in place.  What remains here is data: every database name that contains the shape substring is classified by the shape test.
+        try:
+            v1, l1, t1 = shape_predicate(helpers[en])
+            v2, l2, t2 = shape_predicate(helpers[ne])
+        except AnalysisError as ex:
+            rep.note('%s helpers are not single classification loops (%s); their behaviour is decided by the decision table only' % (tag, ex))
+            continue
         s1, o1 = shape_atoms(t1.test, v1)
         s2, o2 = shape_atoms(t2.test, v2)
         rep.check('predicates', '%s: enabled and not-enabled helpers test the same name shape' % tag, s1 == s2 and len(s1) > 0, t2,
                   '%s shape predicates disagree: enabled tests %s, not-enabled tests %s' % (tag, sorted(s1), sorted(s2)), sample={'rule': 'predicates', 'shape': tag, 'tests': sorted(s1)})
-        rep.check('predicates', '%s: enabled helper has no extra condition' % tag, not o1, t1, 'extra condition in %s: %s' % (en, [unparse(x) for x in o1]))
-        # body of both: append the loop variable to the returned list
-        for h, v, t in ((en, v1, t1), (ne, v2, t2)):
-            ok = len(t.body) == 1 and not t.orelse and unparse(t.body[0]) == 'ret.append(%s)' % v
-            rep.check('predicates', '%s: matching names are returned unchanged' % h, ok, t, '%s does not return the matched name' % h)
-            rets = [r for r in walk_no_nested(helpers[h]) if isinstance(r, ast.Return)]
-            rep.check('predicates', '%s returns its list' % h, len(rets) == 1 and unparse(rets[0].value) == 'ret', helpers[h], '%s returns %s' % (h, [unparse(r.value) for r in rets]))
-        # enabled: role-appropriate list
-        src = unparse(l1.iter)
-        d = [n for n in walk_no_nested(helpers[en]) if isinstance(n, ast.Assign) and unparse(n.targets[0]) == src]
-        want = 'algs.ssh2kex.client.%s if client_audit else algs.ssh2kex.server.%s' % (acc, acc)
-        ok = len(d) == 1 and unparse(d[0].value) == want
-        rep.check('predicates', '%s reads the client list in client audits and the server list otherwise' % en, ok, d[0] if d else l1, '%s iterates %s' % (en, unparse(d[0].value) if d else src))
-        okg = [(unparse(t), p) for t, p, k in path_condition(l1) if k != 'for'] == [('algs.ssh2kex is not None', True)]
-        rep.check('predicates', '%s guarded only by kex presence' % en, okg, l1, '%s loop guarded by %s' % (en, [(unparse(t), p) for t, p, k in path_condition(l1)]))
-        # not-enabled: ranges over db[cat], excludes enabled ones
-        rep.check('predicates', '%s ranges over the %s category of the database' % (ne, cat), unparse(l2.iter) in ('db["%s"]' % cat, "db['%s']" % cat), l2, '%s iterates %s' % (ne, unparse(l2.iter)))
-        want_excl = '%s not in %s(algs)' % (v2, en)
-        rep.check('predicates', '%s excludes exactly the enabled ones' % ne, [unparse(x) for x in o2] == [want_excl], t2, '%s extra conditions: %s (expected %s)' % (ne, [unparse(x) for x in o2], want_excl))
-        # data cross-check
         nhit = 0
         for name in db2[cat]:
             if substr in name:
